@@ -29,6 +29,7 @@ func init() {
 				c03DeliverOAE(c, id, oi)
 				gateOAE(c, id, oi, "wait")
 			}},
+			{ID: "C13.R11", Text: "events racing with the close cannot trip the fail-stop membership check: snapshot announcements are installed whenever the gate passes, also while the delivery switch is off (same rule as C06.R7)", Run: markerInstall},
 			{ID: "C13.R9", Text: "background waits are cancellable: the health checker blocks only in selects with a ctx.Done() case (same rule as C19.R2)", Run: c19r2},
 			{ID: "C13.R10", Text: "a cancel signal closes with closeWithCancel=true: the flag is raised in the branch of the wait that received the signal, before the close path runs, and is what Stream.Close receives", Run: c13r10},
 			{ID: "C13.R8", Text: "closeAllStreams closes every assigned vBucket: the serial branch iterates vbIDRange.Start..End inclusive, the parallel branch ranges over every tracked position", Run: closeAllRange},
@@ -552,6 +553,7 @@ func closeAllRange(c *Ctx, id string) {
 						}
 					})
 					c.Check(ok && rng, id, "close-range:parallel@"+fname(fn), in.Pos(), "one CloseStream per tracked position", "the parallel close does not cover every tracked position")
+					closeAllWait(c, id, fn)
 					return
 				}
 				// serial branch: induction from Start, guard <= End
@@ -660,4 +662,62 @@ func c13r10(c *Ctx, id string) {
 			}
 		})
 	}
+}
+
+// closeAllWait: the parallel close waits for exactly the goroutines it spawns — the WaitGroup is sized by the number of
+// entries of the very map that is ranged over (or by Add(1) per spawned goroutine) and Wait is called before the
+// function returns. A count taken from anywhere else (say, the live active-stream counter) lets Close return while
+// close requests are still in flight, or makes a late Done panic.
+func closeAllWait(c *Ctx, id string, fn *ssa.Function) {
+	w := c.W
+	rangeRecv := ""
+	allInstrs(fn, func(x ssa.Instruction) {
+		if c2 := callOf(x); c2 != nil {
+			if m, recv := csmapMethod(c2); m == "Range" && w.isOffsetMap(recv.Type()) {
+				rangeRecv = w.Origin(recv)
+			}
+		}
+	})
+	var bad []string
+	nAdd, nWait, nDone := 0, 0, 0
+	for _, f := range withAnon(fn) {
+		allInstrs(f, func(in ssa.Instruction) {
+			cc := callOf(in)
+			if cc == nil {
+				return
+			}
+			switch n := calleeName(cc); {
+			case strings.HasSuffix(n, "WaitGroup).Add"):
+				nAdd++
+				o := w.Origin(cc.Args[len(cc.Args)-1])
+				switch {
+				case f == fn && rangeRecv != "" && isCountOf(w, cc.Args[len(cc.Args)-1], rangeRecv):
+				case f != fn && o == "const(1)":
+				default:
+					bad = append(bad, "Add("+o+") @"+w.pos(in.Pos()))
+				}
+			case strings.HasSuffix(n, "WaitGroup).Wait"):
+				if f == fn {
+					nWait++
+				}
+			case strings.HasSuffix(n, "WaitGroup).Done"):
+				nDone++
+			}
+		})
+	}
+	if nAdd == 0 && nWait == 0 && nDone == 0 {
+		return // no WaitGroup: the close calls are synchronous (decided by the range rule)
+	}
+	c.Check(len(bad) == 0 && nAdd >= 1 && nWait == 1 && nDone >= 1, id, "close-wait:parallel@"+fname(fn), fn.Pos(), "the WaitGroup is sized by Count() of the ranged position map (one Done per spawned close) and waited for",
+		fmt.Sprintf("the parallel close does not wait for exactly the goroutines it spawns (ranged map %s; %s; %d Add, %d Wait, %d Done): Close may return while close requests are in flight, or a late Done panics", rangeRecv, strings.Join(bad, ", "), nAdd, nWait, nDone))
+}
+
+// isCountOf: v (through conversions) is Count() of the concurrent map whose origin is recv.
+func isCountOf(w *World, v ssa.Value, recv string) bool {
+	call, ok := unwrap(v).(*ssa.Call)
+	if !ok {
+		return false
+	}
+	m, r := csmapMethod(call.Common())
+	return m == "Count" && r != nil && w.Origin(r) == recv
 }
